@@ -357,6 +357,7 @@ DoUpdate(s, e) ==
       v == ValidateM(m, e.p) IN
   IF v = "panic" THEN Res("panic", s, m \o ":validate:nil")
   ELSE IF v = "err" \/ e.sender # "authority" THEN Res("rej", s, "")
+  ELSE IF m = "token" /\ e.p.fee = "other" THEN Res("rej", s, "")   \* msg server: the fee denom must be an issued token (F38)
   ELSE Res("ok", [s EXCEPT !.params[m] = Norm(m, e.p)], "")
 
 (* InitGenesis: refused (panic -> InitChain error) unless Validate accepts;
